@@ -15,6 +15,7 @@ the 64-byte `Marshal` form, a nil signature (`Signature{}` with nil point) is `-
   perm <seed> <n> <k> <j0> …                  → i0,i1,…
   g1add <P> <Q> | g1mul <P> <k> | g1unm <bytes>
   recover <k> <js|-> <id> <sig> …        → ok <sig|-> | PANIC
+  gen <k> <js|-> <id> <sig> …            → <add><gen>,… <groupSign|-> | PANIC   (GroupSignGenerator.AddWitnessSign per arrival)
   dkg <msg> <ghash> <hm> <k> <n> <m> <js|-> seeds(n) ids(n) coeffs(n·k) arrival(m)   (msg, ghash, seeds: Go only)
                                          → <msk1>,…,<mskn> <gsk> <sigFirstK> <sigAll> <direct>
 -/
@@ -135,6 +136,20 @@ def step (_ : Unit) (line : String) : Unit × String :=
       | some k', some js', some es =>
         if es.any (fun e => e.1 ≥ 2 ^ 256) then "bad-op"
         else if hasDup (es.map Prod.fst) then "dup-ids" else showRes (recoverEntries k' js' es)
+      | _, _, _ => "bad-op"
+    | "gen" :: k :: js :: rest =>
+      match dec? k, decs? js, entries? rest with
+      | some k', some js', some es =>
+        if es.any (fun e => e.1 ≥ 2 ^ 256) then "bad-op" else
+        let isValid : G1.Point → Bool := G1.isOnCurve curve
+        let rec go (st : Shamir.SignGen G1.Point) (flags : List String) :
+            List (Nat × Option G1.Point) → String
+          | [] => joinWith "," flags.reverse ++ " " ++ showSig st.groupSign
+          | (x, sg) :: more =>
+            match Shamir.addWitnessSign ops r isValid st x sg ⟨id, js', id⟩ with
+            | .panic => "PANIC"
+            | .ok (st', a, g) => go st' (((if a then "1" else "0") ++ (if g then "1" else "0")) :: flags) more
+        go (Shamir.SignGen.new k') [] es
       | _, _, _ => "bad-op"
     | "dkg" :: msg :: gh :: hm :: k :: n :: m :: js :: rest =>
       match ofHex? msg, ofHex? gh, sig? hm, dec? k, dec? n, dec? m, decs? js with
